@@ -1439,3 +1439,18 @@ _e = _c15_deque()
 V("rf-c15-deque", "C15", "silent", *_e[0], more=_e[1:], what="deque with popleft / appendleft instead of list slicing")
 _e = _c15_deque(push="            stack.appendleft((next_node, visited, next_to_visit))\n")
 V("rf-c15-deque-visited-not-grown", "C15", "fire", *_e[0], more=_e[1:], rule="PATHS", what="deque form, visited does not grow")
+
+# ------------------------------------------------------------------------------- C18 remove_edges on two parallel index arrays (refactor round 2)
+_C18_OLD = "    edges = directed_edges(A)\n    if len(edges) < no_edges:\n        raise ValueError(\"There are not enough edges to remove.\")\n    pruned = A.copy()\n    for (fro, to) in rng.choice(edges, no_edges, replace=False):\n        pruned[fro, to] = 0\n"
+
+
+def _c18_par(guard="len(fro) < no_edges", draw="rng.choice(np.arange(len(fro)), no_edges, replace=False)", store="pruned[fro[chosen], to[chosen]] = 0"):
+    return "    fro, to = np.where(only_directed(A))\n    if %s:\n        raise ValueError(\"There are not enough edges to remove.\")\n    pruned = A.copy()\n    chosen = %s\n    %s\n" % (guard, draw, store)
+
+
+V("rf-c18-parallel-arrays", "C18", "silent", UT, _C18_OLD, _c18_par(), what="two index arrays and one vectorised store")
+V("rf-c18-parallel-int-population", "C18", "silent", UT, _C18_OLD, _c18_par(draw="rng.choice(len(fro), no_edges, replace=False)"), what="integer population")
+V("rf-c18-parallel-with-replacement", "C18", "fire", UT, _C18_OLD, _c18_par(draw="rng.choice(np.arange(len(fro)), no_edges)"), rule="DRAW.remove", what="positions drawn with replacement")
+V("rf-c18-parallel-transposed", "C18", "fire", UT, _C18_OLD, _c18_par(store="pruned[to[chosen], fro[chosen]] = 0"), rule="RESULT.remove", what="transposed positions cleared")
+V("rf-c18-parallel-guard-le", "C18", "fire", UT, _C18_OLD, _c18_par(guard="len(fro) <= no_edges"), rule="GUARD.remove", what="guard off by one")
+V("rf-c18-parallel-all-edges", "C18", "fire", UT, _C18_OLD, _c18_par().replace("np.where(only_directed(A))", "np.where(A)"), rule=None, what="undirected edges counted as removable", accept_inconclusive=True)
